@@ -957,6 +957,19 @@ def disjoint_rules(chk, repo):
     okr = (merged and single) if recognised else None
     chk.ob('C06-f', 'structural', fr.key, 'groups with more than one member are merged, singletons passed through', okr,
            '', fr.loc())
+    # a group is a set of fields whose bounding boxes are connected, not a set of pairwise overlapping fields: it has to be
+    # summed without an overlap test between its members (the public merge(a, b) refuses non-overlapping operands)
+    enforcing = []
+    for p in paths:
+        for e in p.events:
+            if e.kind == 'call' and e.data.get('callee') == 'field.merge':
+                eo = (e.data.get('bound') or {}).get('enforce_overlap')
+                if eo is None or eo != FALSE:
+                    enforcing.append(e.loc())
+    chk.ob('C06-f', 'structural', fr.key, 'the members of a group are summed without a pairwise overlap test',
+           not enforcing, (f'merge(a, b) with enforce_overlap left on at {sorted(set(enforcing))[0]}: two members of one group that do not '
+                           'overlap each other (A-B-C in a row) make the reduction raise') if enforcing else
+           'groups go through _merge (no overlap test)', fr.loc())
     # ... on every path: a path that hands the fields back without grouping them (an early return behind some test of
     # the whole collection) skips the merge for collections the test misjudges
     bypass = [p for p in returns(paths) if not any(is_app(a, 'call:field._reduce') for a in nf.value_atoms(p.ret))
